@@ -984,8 +984,8 @@ package pokertable
 //@ func (*tableEngine).calcGamePlayerIndexes
 //@   property C02
 //@   returns r
-//@   partial discharged for seat counts 2..3 (every dealer / big-blind seat); larger tables exceed the solver budget and are a bounded stand-in, not a proof
-//@   config M 2..3 quick 2..2 : maxSeatCount = M, te.sm.MaxSeat = M, len(te.sm.SeatData) = M
+//@   partial discharged for seat counts 2..4 (every dealer / big-blind seat); larger tables exceed the solver budget and are a bounded stand-in, not a proof
+//@   config M 2..4 quick 2..2 : maxSeatCount = M, te.sm.MaxSeat = M, len(te.sm.SeatData) = M
 //@   split D 0..M-1 : currentDealerSeatID = D
 //@   split B -1..M-1 : currentBBSeatID = B
 //@   requires te != nil && ref(te.sm) != 0 && typeis(te.sm, "*seat_manager.seatManager") && SmWF(te.sm) && te.sm.IsInit && (rule == CompetitionRule_ShortDeck ==> te.sm.Rule == "short_deck") && (rule != CompetitionRule_ShortDeck ==> te.sm.Rule == "default")
@@ -993,11 +993,11 @@ package pokertable
 //@   requires currentDealerSeatID == te.sm.DealerSeatID && currentSBSeatID == te.sm.SBSeatID && currentBBSeatID == te.sm.BBSeatID
 //@   modifies nothing
 //@   allocates
-//@   loop 0 unroll 10
-//@   loop 1 unroll 10
-//@   loop 2 unroll 10
-//@   loop 3 unroll 10
-//@   loop 4 unroll 10
+//@   loop 0 unroll M
+//@   loop 1 unroll M
+//@   loop 2 unroll M
+//@   loop 3 unroll M
+//@   loop 4 unroll M
 //@   ensures entries-are-the-dealt-in: fresh(r) && 0 <= len(r) && len(r) <= len(players) && forall(k, 0, 10, k < len(r) ==> 0 <= r[k] && r[k] < len(players) && players[r[k]].IsParticipated)
 //@   ensures every-dealt-in-player-once: forall(i, 0, 10, i < len(players) && players[i].IsParticipated ==> exists(k, 0, 10, k < len(r) && r[k] == i))
 //@   ensures clockwise-from-first: forall(k, 0, 9, k + 1 < len(r) ==> cwd(maxSeatCount, players[r[0]].Seat, players[r[k]].Seat) < cwd(maxSeatCount, players[r[0]].Seat, players[r[k+1]].Seat))
